@@ -21,7 +21,14 @@
     Exchange formats (mirrored by harness/c01.go, c03.go, c02.go):
       table case  = (kind columns pknames rows runSize arrival goparams)
          kind      0 = ingest.IngestTable + object read-back; 1 = wrgl commit + wrgl export;
-                   2 = Sorter.AddRow for every row + Inserter.IngestTableFromSorter (no CSV)
+                   2 = Sorter.AddRow for every row + Inserter.IngestTableFromSorter (no CSV);
+                   C03 only, same model path (the model ingests [rows]; an eighth, Go-only
+                   element carries the producer's extra input):
+                   4 = merge result: rows = three-way merge of (base b1 b2) computed by the
+                       harness, committed like cmd/wrgl commitMergeResult;
+                   5 = doctor re-ingest of a stored table holding [rows] (with duplicates)
+                       in this order; 6 = receipt of the ingested CSV through
+                       ObjectSender / packfile / ObjectReceiver
          columns   node of cells (header), pknames node of cells, rows node of rows
          runSize   leaf; arrival node of leaves: scheduling keys, block i arrives in the
                    order of (arrival[i mod len], i)  (model only; Go schedules for real)
